@@ -117,7 +117,7 @@ Proof.
       { apply Nat.ltb_lt. destruct (nops n) as [|? [|? ?]]; cbn [length] in *; try congruence; lia. }
       destruct (find_node (pnodes g) (nid n)) as [c|].
       * destruct (nops c) as [|k ?]; [discriminate|].
-        destruct (index_of_name (oname k) (nops n)); [|discriminate].
+        destruct (index_of_op k (nops n)); [|discriminate].
         intros H. inversion H. reflexivity.
       * intros H. inversion H. reflexivity.
   - intros H. inversion H. reflexivity.
@@ -136,23 +136,31 @@ Proof.
 Qed.
 
 (* ---------------------------------------------------------------- alternatives by name *)
-Lemma index_find name ops j : index_of_name name ops = Some j -> nth_error ops j = find_op name ops.
+Lemma index_find k0 ops j : index_of_op k0 ops = Some j -> nth_error ops j = find_op k0 ops.
 Proof.
-  revert j. induction ops as [|k r IH]; intros j H; cbn [index_of_name find_op] in *; [discriminate|].
-  destruct (oname k =? name).
+  revert j. induction ops as [|k r IH]; intros j H; cbn [index_of_op find_op] in *; [discriminate|].
+  destruct (opk_eqb k k0).
   - inversion H; subst. reflexivity.
-  - destruct (index_of_name name r) as [j'|]; [|discriminate]. inversion H; subst.
+  - destruct (index_of_op k0 r) as [j'|]; [|discriminate]. inversion H; subst.
     cbn [nth_error]. apply IH. reflexivity.
+Qed.
+
+Lemma find_op_eq k0 ops k : find_op k0 ops = Some k -> k = k0 /\ In k0 ops.
+Proof.
+  induction ops as [|x r IH]; cbn [find_op]; [discriminate|].
+  destruct (opk_eqb x k0) eqn:E.
+  - intros H. inversion H; subst. apply opk_eqb_eq in E. subst. split; [reflexivity|left; reflexivity].
+  - intros H. destruct (IH H). split; [assumption|right; assumption].
 Qed.
 
 Lemma ops_agree_node g G c a k :
   ops_agree g G = true -> In c (pnodes g) -> find_node (pnodes G) (nid c) = Some a -> nops c = k :: nil ->
-  find_op (oname k) (nops a) = Some k.
+  find_op k (nops a) = Some k.
 Proof.
   unfold ops_agree. rewrite forallb_forall. intros H Hc Ha Hk. specialize (H c Hc). rewrite Ha in H.
   unfold alt_agree in H. rewrite Hk in H.
-  destruct (find_op (oname k) (nops a)) as [k'|]; [|discriminate].
-  apply opk_eqb_eq in H. congruence.
+  destruct (find_op k (nops a)) as [k'|] eqn:E; [|discriminate].
+  destruct (find_op_eq _ _ _ E) as [-> _]. reflexivity.
 Qed.
 
 (* ---------------------------------------------------------------- decode *)
@@ -199,7 +207,7 @@ Section Decode.
       destruct (length (nops a) <=? 1)%nat eqn:El.
       + apply Nat.leb_le in El. destruct (nops a) as [|x [|? ?]]; cbn [length] in El; try lia.
         * discriminate.
-        * cbn [find_op] in Hfo. cbn [nth_error]. destruct (oname x =? oname k); [exact Hfo|discriminate].
+        * cbn [find_op] in Hfo. cbn [nth_error]. destruct (opk_eqb x k); [exact Hfo|discriminate].
       + apply Nat.leb_gt in El.
         pose proof (Hnsw a HaG) as Hlt. destruct (Huser _ Hlt) as [u Hu].
         pose proof (switch_user_of_node G a u HaG Hu) as ->.
@@ -209,7 +217,7 @@ Section Decode.
         pose proof He as He'. unfold decode_switch in He'. rewrite Hu in He'.
         assert (Nat.eqb (length (nops a)) 1 = false) as E1 by (apply Nat.eqb_neq; lia).
         rewrite E1, Hfc, Hk in He'.
-        destruct (index_of_name (oname k) (nops a)) as [j|] eqn:Ej; [|discriminate].
+        destruct (index_of_op k (nops a)) as [j|] eqn:Ej; [|discriminate].
         inversion He'; subst e.
         rewrite (sigma_decode G g mu es (nsw a) (EVal (Z.of_nat j)) Hne Hes Hlt He eq_refl).
         cbn [entry_val]. rewrite Nat2Z.id. rewrite (index_find _ _ _ Ej). rewrite Hfo. reflexivity.
